@@ -91,7 +91,29 @@ def impl(case):
     else:
         f = mh.utils.filtering.runningmean if case['which'] == 'filtering' else mh.utils.runningmean
         r = f(x, case['w'])
-    return {'ok': canon(np.asarray(r)), 'intact': bool(np.array_equal(before, x)) and (dt == 'list' or x.dtype == before.dtype)}
+    out = {'ok': canon(np.asarray(r)), 'intact': bool(np.array_equal(before, x)) and (dt == 'list' or x.dtype == before.dtype)}
+    if dt != 'list' and isinstance(x, np.ndarray) and x.ndim in (1, 2) and x.size:
+        # the same values in other memory layouts (strided view / Fortran order) give the same result
+        if x.ndim == 2:
+            from implutil import alt_layouts
+            alts = alt_layouts(x)
+        else:
+            big = np.zeros(3 * len(x), dtype=x.dtype)
+            big[1::3] = x
+            alts = {'strided': big[1::3], 'reversed-view': x[::-1].copy()[::-1]}
+        diff = []
+        for lname, A in alts.items():
+            keep = A.copy()
+            try:
+                rr = mh.utils.filtering.gaussian_filter(A, case['sigma']) if case['k'].startswith('gauss') else f(A, case['w'])
+                if canon(np.ascontiguousarray(rr)) != canon(np.ascontiguousarray(r)):
+                    diff.append('%s input gives another result' % lname)
+            except Exception as exc:  # noqa
+                diff.append('%s input raises %s' % (lname, type(exc).__name__))
+            if not np.array_equal(keep, A):
+                diff.append('%s input was modified' % lname)
+        out['layout_diff'] = diff
+    return out
 
 
 def requests(case):
@@ -119,6 +141,8 @@ def judge(case, ibc, answers):
             continue
         if not r['intact']:
             P('impl-vs-spec', 'the input array was modified')
+        for d in r.get('layout_diff') or []:
+            P('impl-vs-spec', 'memory layout: ' + d)
         c = r['ok']
         x = case['x']
         twod = case['k'] == 'gauss2'
